@@ -157,7 +157,7 @@ def grid_native(col, shard, nshards, lmax, nkeys, full_splits):
         for length in range(shard, lmax + 1, nshards):
             data = pattern(length, 1)
             for off in range(4):
-                for mk in ("XorMaskerSimple", "XorMaskerShifted1", "factory"):
+                for mk in ("XorMaskerSimple", "XorMaskerShifted1", "factory", "factory-nohint", "factory-none", "factory-hint127", "factory-hint128"):
                     for cuts in ([], [length // 3], [1, length // 2] if length > 2 else []):
                         case = {"check": "wrapper", "impl": mk, "key": key, "len": length, "off": off, "cuts": cuts}
                         check_wrapper_case(nx, create_xor_masker, case, data)
@@ -171,6 +171,16 @@ def grid_native(col, shard, nshards, lmax, nkeys, full_splits):
 def _mk(mod, create, impl, key, length):
     if impl == "factory":
         return create(key, length)
+    # the length is documented as an optional *hint* (default None): the factory must hand out a working masker without it, and for a hint
+    # that differs from what is then processed
+    if impl == "factory-nohint":
+        return create(key)
+    if impl == "factory-none":
+        return create(key, None)
+    if impl == "factory-hint127":
+        return create(key, 127)
+    if impl == "factory-hint128":
+        return create(key, 128)
     return getattr(mod, impl)(key)
 
 
@@ -220,8 +230,8 @@ def grid_pure(col, shard, nshards, lmax, nkeys):
         for length in range(shard, lmax + 1, nshards):
             data = pattern(length, 2)
             for off in range(4):
-                for mk in ("XorMaskerSimple", "XorMaskerShifted1", "factory"):
-                    splits = [[]] + [[s] for s in range(0, length + 1)] if (mk != "factory" and length <= 130) else [[], [length // 3], [1, length // 2] if length > 2 else []]
+                for mk in ("XorMaskerSimple", "XorMaskerShifted1", "factory", "factory-nohint", "factory-none", "factory-hint127", "factory-hint128"):
+                    splits = [[]] + [[s] for s in range(0, length + 1)] if (not mk.startswith("factory") and length <= 130) else [[], [length // 3], [1, length // 2] if length > 2 else []]
                     for cuts in splits:
                         case = {"check": "pure", "impl": mk, "key": key, "len": length, "off": off, "cuts": cuts}
                         check_wrapper_case(xm, xm.create_xor_masker, case, data)
@@ -254,7 +264,7 @@ def generated(col, seed, n, big):
         off = draw(st.integers(0, 3))
         ncuts = draw(st.integers(0, 6))
         cuts = sorted(draw(st.lists(st.integers(0, length), min_size=ncuts, max_size=ncuts)))
-        impls = ["XorMaskerSimple", "XorMaskerShifted1", "factory"] + (["lib1", "lib2"] if native else [])
+        impls = ["XorMaskerSimple", "XorMaskerShifted1", "factory", "factory-nohint", "factory-none", "factory-hint127", "factory-hint128"] + (["lib1", "lib2"] if native else [])
         return {"check": "gen", "impl": draw(st.sampled_from(impls)), "key": key, "len": length, "off": off,
                 "cuts": cuts, "align": draw(st.integers(0, 15)), "salt": draw(st.integers(0, 1 << 30))}
 
